@@ -52,7 +52,8 @@ func valueFieldByName(v reflect.Value, fields []string) (out reflect.Value, ok b
 	// if pointer we dereference
 	if out.Kind() == reflect.Ptr {
 		if out.IsZero() {
-			out = reflect.New(out.Type().Elem())
+			// a nil pointer stands for the zero value of what it points to
+			out = reflect.New(out.Type().Elem()).Elem()
 		} else {
 			out = out.Elem()
 		}
